@@ -116,13 +116,24 @@ type bufs struct {
 	srcE, dstE, srcS, dstS *gen.Guarded
 }
 
+// guarded allocates a guard-page buffer; running out of mappings is a
+// harness error, never a violation.
+func guarded(n int, atEnd bool) (g *gen.Guarded) {
+	defer func() {
+		if p := recover(); p != nil {
+			h.HarnessError("cannot allocate a guard-page buffer of %d bytes: %v", n, p)
+		}
+	}()
+	return gen.NewGuarded(n, atEnd)
+}
+
 func newBufs(n int) *bufs {
 	if n > maxData {
 		panic("c02: case too large for the guarded buffers")
 	}
 	b := &bufs{n: n}
-	b.srcE, b.dstE = gen.NewGuarded(n+margin, true), gen.NewGuarded(n+margin, true)
-	b.srcS, b.dstS = gen.NewGuarded(n+margin, false), gen.NewGuarded(n+margin, false)
+	b.srcE, b.dstE = guarded(n+margin, true), guarded(n+margin, true)
+	b.srcS, b.dstS = guarded(n+margin, false), guarded(n+margin, false)
 	return b
 }
 
@@ -362,7 +373,7 @@ func selfTestLayouts() error {
 		f()
 		return false
 	}
-	g := gen.NewGuarded(48, true)
+	g := guarded(48, true)
 	e, _ := atEnd(g, 32)
 	if !probe(func() { sink = *(*byte)(unsafeAdd(&e[31], 1)) }) {
 		return fmt.Errorf("reading one byte past a guarded buffer does not fault")
@@ -371,7 +382,7 @@ func selfTestLayouts() error {
 		return fmt.Errorf("writing one byte past a guarded buffer does not fault")
 	}
 	g.Free()
-	g = gen.NewGuarded(48, false)
+	g = guarded(48, false)
 	s, _ := atStart(g, 32)
 	if !probe(func() { sink = *(*byte)(unsafeAdd(&s[0], -1)) }) {
 		return fmt.Errorf("reading one byte before a guarded buffer does not fault")
@@ -536,7 +547,7 @@ func refBlocks(key, in []byte, dec bool) []byte {
 // buffer (so that key expansion cannot read beyond it) which is scribbled over
 // afterwards: the expanded key must not depend on the caller's slice.
 func newCipher(key []byte) (gocipher.Block, error) {
-	g := gen.NewGuarded(len(key), true)
+	g := guarded(len(key), true)
 	defer g.Free()
 	copy(g.B, key)
 	b, err := sm4.NewCipher(g.B)
